@@ -10,7 +10,7 @@ def stats(cases):
     ops, statuses = {}, {}
     hands = wedged = opens = pauses = 0
     for c in cases:
-        for s in c["steps"]:
+        for s in c.get("steps") or []:
             ops[s["op"]] = ops.get(s["op"], 0) + 1
             statuses[s["post"]["status"]] = statuses.get(s["post"]["status"], 0) + 1
             if s["hand_closed"]:
@@ -26,7 +26,7 @@ def stats(cases):
             "histories_starting_on_break_or_unset": sum(1 for c in cases if c["init_blind"]["level"] <= 0)}
 
 
-def run_life(res, code, clause_names, replay=None, signature=lambda c, s: None):
+def run_life(res, code, clause_names, replay=None, signature=lambda c, s: None, plans=None):
     def relevant(case, c, step):
         return c in (2, code)
 
@@ -34,24 +34,24 @@ def run_life(res, code, clause_names, replay=None, signature=lambda c, s: None):
         idx = step if c == 2 else step // 10
         d = {"code": {2: "model-vs-implementation", 3: "C07 monitor", 4: "C08 monitor", 5: "C12 monitor"}.get(c, c),
              "history_index": case["index"], "failing_step": idx,
-             "config": {k: case[k] for k in ("seed", "max", "mode", "min", "init_blind")}}
+             "config": {k: case[k] for k in ("seed", "max", "mode", "min", "init_blind", "join_at_create", "directed", "continue_interval") if k in case}}
         if c != 2:
             d["failing_clause"] = clause_names.get(step % 10, step % 10)
         d["steps_up_to_failure"] = case["steps"][max(0, idx - 3): idx + 1]
         return d
 
     return standard_flow(
-        res, hx="life", corr="Life_run", n=0 if replay else NH[res.tier], shard=10 if res.tier == "quick" else 100, replay=replay,
+        res, hx="life", corr="Life_run", n=0 if replay else NH[res.tier], shard=10 if res.tier == "quick" else 100, replay=replay, plans=None if replay else plans,
         signature=signature, describe=describe, stats=stats, relevant=relevant,
-        unit=lambda c: {k: c[k] for k in ("index", "seed", "max", "mode", "min", "init_blind")},
+        unit=lambda c: {k: c[k] for k in ("index", "seed", "max", "mode", "min", "init_blind", "join_at_create", "directed", "continue_interval") if k in c},
         rule="real tables (2..8 seats, ct/mtt, minimum 2 or 3, starting levels incl. break and unset) driven through up to 90 macro steps: "
              "start, signal / withhold settlement-finished (real 2 s gate timeout), play to the next quiescent point, blind updates (also "
              "break / unset levels, also issued from INSIDE the backend's CreateGame), pause, close, release, external set-up, arrivals; "
              "every notification between quiescent points is kept; distinct = distinct step sequences; non-trivial = at least one hand "
              "settled and one external operation",
-        nontrivial=lambda c: any(s["hand_closed"] for s in c["steps"]) and any(s["op"] in ("update_blind", "pause", "close", "release", "reserve", "setup", "timeout") for s in c["steps"]),
-        key=lambda c: json.dumps([(s["op"], s["post"]["status"], s["post"]["gc"]) for s in c["steps"]]),
-        assumptions=["GameContinueInterval = 0 (the continue handler runs synchronously); schedules inside the continue delay are not explored",
+        nontrivial=lambda c: c.get("directed") == "create_only" or any(s["hand_closed"] for s in c.get("steps") or []) and any(s["op"] in ("update_blind", "pause", "close", "release", "reserve", "setup", "timeout") for s in c["steps"]),
+        key=lambda c: json.dumps([(s["op"], s["post"]["status"], s["post"]["gc"]) for s in c.get("steps") or []] + [c.get("mode"), c.get("join_at_create"), c.get("status_after_create"), c["init_blind"]["level"]]),
+        assumptions=["GameContinueInterval is 0 or 1 s; with 1 s a blind update (also to a break), a re-buy of a busted player or a newcomer is injected inside the interval, released by the settlement notification",
                      "player counts (with chips / seated-in with chips) and 'the hand reached settlement' enter the model as observed oracle values",
                      "that the seat manager can move with two live players is C04's subject (findings F7/F8 apply)"])
 
@@ -60,5 +60,5 @@ def replay_life(res, path, run):
     data = json.load(open(path))
     rc = data["replay_case"]
     tmp = path + ".case.json"
-    json.dump([{k: rc[k] for k in ("index", "seed", "max", "mode", "min", "init_blind")}], open(tmp, "w"))
+    json.dump([{k: rc[k] for k in ("index", "seed", "max", "mode", "min", "init_blind", "join_at_create", "directed", "continue_interval") if k in rc}], open(tmp, "w"))
     return run(res, replay=tmp)
